@@ -135,6 +135,18 @@ def gen_weights_case(rng):
 
 
 
+def gen_ctor_case(rng):
+    """label-based constructor: repeated labels in contiguous and NON contiguous order, all distinct, all equal"""
+    n = rng.choice([1, 2, 3, 4, 6, 9]); kind = rng.choice(["distinct", "all-equal", "contiguous", "scattered", "scattered", "scattered"])
+    if kind == "distinct": ls = rng.sample(range(20), n)
+    elif kind == "all-equal": ls = [rng.randint(0, 5)] * n
+    else:
+        ls = [rng.randint(0, max(1, n // 2)) for _ in range(n)]
+        if kind == "contiguous": ls.sort(key=lambda x: (x * 7) % 5)
+    ws = [rng.randint(-4, 9) or 1 for _ in range(n)]
+    body = " ".join(map(str, [n] + ls + ws))
+    return "c09 17 " + body, "c09 10 " + body, "ctor:" + kind
+
 def gen_history_case(rng):
     """(harness line op 15, model line op 5 of the second file alone, kind): a labelled file loaded into an object that has
     already loaded another labelled file - same labels, disjoint labels, overlapping labels, multi-point labels"""
@@ -598,6 +610,26 @@ def main(replay=None):
         if False:
             ck.violation(sig, "%s on case `%s`; the model is the one the theorems of Properties_C09.v are proved about" % (msg, c),
                          dict(kind="correspondence", cases=[c], kinds=[k], model=[m], impl=[i]))
+    # the weight-matrix clause through the label-based constructors (not only the file loader)
+    if not replay or rp.get("ctor"):
+        cc = [tuple(x) for x in rp["ctor"]] if replay else [gen_ctor_case(ck.rng) for _ in range(300 if quick else 3000)]
+        cmo = core.run_model([b for _, b, _ in cc]); rcc, cio, _e = core.run_harness(hb, [a for a, _, _ in cc], ck.workdir, tag="ctor")
+        for (a, b, k), m, i in zip(cc, cmo, cio):
+            dist[k] = dist.get(k, 0) + 1
+            z, _f = core.fparse(i); mz = [int(x) for x in m.split()]
+            msg = None
+            if z is None or mz != z: msg = "model %s implementation %s" % (m[:150], i[:150])
+            elif z[0] == 0:
+                # the property's own relation on the implementation: points with the same label share one row, different labels never do
+                w = [int(x) for x in a.split()[2:]]; n = w[0]; ls = w[1:1 + n]; nb = z[1]; M = z[2:]
+                rows_of = [[s_ for s_ in range(nb) if M[s_ * n + i_] != 0] for i_ in range(n)]
+                for i_ in range(n):
+                    for j_ in range(n):
+                        if rows_of[i_] and rows_of[j_] and ((rows_of[i_] == rows_of[j_]) != (ls[i_] == ls[j_])): msg = "points %d and %d: labels %s/%s, rows %s/%s" % (i_, j_, ls[i_], ls[j_], rows_of[i_], rows_of[j_])
+            if msg:
+                mism += 1
+                ck.violation("getWeightsMatrix of the label-based constructor: not grouped by label",
+                             "Sensors(labels,positions,orientations,weights,radii).getWeightsMatrix(): %s; case `%s`" % (msg, a), dict(kind="ctor", ctor=[[a, b, k]]))
     # history on the weight-matrix clause: a second load() into an object that already holds labelled sensors must give
     # the weight matrix of a fresh object (the model of load starts from an empty name list)
     if not replay or rp.get("history"):
